@@ -17,6 +17,8 @@ class ExecMixin:
             raise Abort("call depth")
         short = "::".join(fn["name"].replace("::<T>", "").split("::")[-2:])
         ctxname = fn["name"] if parent is None else parent.ctxname + " > " + (tag or short)
+        if id(body) not in self.fn_rot:
+            self.rot_info(fn, body)
         return Frame_(fn, body, self.counter, depth, ctxname, persistent)
 
     def loops_of(self, fn, body):
@@ -79,6 +81,73 @@ class ExecMixin:
         self.fn_loops[key] = loops
         return loops
 
+    def rot_info(self, fn, body):
+        """rotated loops: the value the loop condition inspects is produced by a call made just before the loop and by
+        the same call at the end of the body (`let mut next = f(r); while let Some(x) = next { ..; next = f(r); }`).
+        Returns {"heads": {head: {"in": call blocks inside the loop, "out": outside}}, "sites": all such call blocks,
+        "chain": the blocks between those calls and the head (moves, drops, gotos only)} or None."""
+        key = id(body)
+        if key in self.fn_rot:
+            return self.fn_rot[key]
+        loops = self.loops_of(fn, body)
+        blocks = body["blocks"]
+        info = None
+        if loops:
+            succ_of = {}
+            for i, b in enumerate(blocks):
+                t = b["term"]
+                k = t["t"]
+                if b["cleanup"]:
+                    succ_of[i] = []
+                elif k == "goto":
+                    succ_of[i] = [t["target"]]
+                elif k == "switch":
+                    succ_of[i] = [x[1] for x in t["targets"]] + [t["otherwise"]]
+                elif k in ("call", "assert", "drop"):
+                    succ_of[i] = [t["target"]] if t.get("target") is not None else []
+                else:
+                    succ_of[i] = []
+            pred = {}
+            for a_, ss in succ_of.items():
+                for b_ in ss:
+                    pred.setdefault(b_, []).append(a_)
+
+            def trivial(i):
+                b = blocks[i]
+                if b["term"]["t"] not in ("goto", "drop") or len(succ_of[i]) != 1:
+                    return False
+                return all(st_["s"] != "assign" or st_["rv"]["k"] == "use" for st_ in b["stmts"])
+            heads = {}
+            sites, chain = set(), set()
+            for head, lset in loops.items():
+                calls = []
+                ch = set()
+                work = [(p_, head) for p_ in pred.get(head, [])]
+                seen = set()
+                while work:
+                    p_, nxt = work.pop()
+                    if p_ in seen:
+                        continue
+                    seen.add(p_)
+                    t = blocks[p_]["term"]
+                    if t["t"] == "call" and t.get("target") == nxt and isinstance(t.get("func"), dict) and t["func"].get("key"):
+                        calls.append(p_)
+                    elif trivial(p_) and p_ != head:
+                        ch.add(p_)
+                        work.extend((q_, p_) for q_ in pred.get(p_, []))
+                inside = [c for c in calls if c in lset]
+                outside = [c for c in calls if c not in lset]
+                if inside and outside:
+                    keys = set(blocks[c]["term"]["func"]["key"] for c in inside + outside)
+                    if len(keys) == 1:
+                        heads[head] = {"in": set(inside), "out": set(outside)}
+                        sites.update(inside + outside)
+                        chain.update(ch)
+            if heads:
+                info = {"heads": heads, "sites": sites, "chain": chain}
+        self.fn_rot[key] = info
+        return info
+
     # ------------------------------------------------------------ exploration
     def explore(self, frame, items, loophead=None, loopset=None):
         """run states forward inside `frame`.  items: list of (st, bb).
@@ -102,6 +171,10 @@ class ExecMixin:
                     work.extend(res["exit"])
                     break
                 self.stats["blocks"] += 1
+                if self._trial is not None:
+                    self._trial -= 1
+                    if self._trial < 0:
+                        raise TrialOver()
                 if self.stats["blocks"] > self.opts.get("max_blocks", 30000000):
                     raise Abort("block budget exceeded")
                 try:
@@ -127,6 +200,22 @@ class ExecMixin:
 
     def exec_block(self, frame, st, bb):
         blk = frame.body["blocks"][bb]
+        ri = self.fn_rot.get(id(frame.body))
+        if ri:
+            if bb in ri["sites"]:
+                # the state in front of a call whose result a rotated loop carries to its head (see analyse_rotated)
+                pre = st.fork()
+                pre.ghost.pop("rot", None)
+                out = self._exec_block(frame, st, bb, blk)
+                for k_, s_, _x in out:
+                    if k_ == "goto":
+                        s_.ghost["rot"] = (frame.fid, bb, pre)
+                return out
+            if bb not in ri["chain"] and "rot" in st.ghost and st.ghost["rot"][0] == frame.fid:
+                del st.ghost["rot"]
+        return self._exec_block(frame, st, bb, blk)
+
+    def _exec_block(self, frame, st, bb, blk):
         states = [st]
         for stmt in blk["stmts"]:
             nstates = []
@@ -211,6 +300,8 @@ class ExecMixin:
         out = []
         hook = self.hooks.get("switch")
         if isinstance(d, VBool):
+            if self.loop_stack:
+                self.peel_probe(f=d.f)
             # targets usually [0 -> bbF], otherwise bbT
             fvals = [v for v, _ in targets]
             alts = []
@@ -242,6 +333,9 @@ class ExecMixin:
                     hook(frame, st, bb, d, None, t["otherwise"])
                 return [("goto", st, t["otherwise"])]
             n = len(targets)
+            if self.loop_stack:
+                for v, _tb in targets:
+                    self.peel_probe(lin=d.lin, val=v)
             for i, (v, tb) in enumerate(targets):
                 s2 = st.fork()
                 if self.add(s2, c_eq(d.lin, Lin.const(v))):
@@ -483,29 +577,97 @@ class ExecMixin:
         return None
 
     # ------------------------------------------------------------ loops
-    def analyse_loop(self, frame, st0, head, loopset):
+    def peel_probe(self, f=None, lin=None, val=None):
+        """a branch inside a loop under inference that tests a loop-carried integer for equality with the constant it
+        has on entry singles out the first iteration: that loop is analysed with its first iteration peeled off"""
+        if not self.loop_stack:
+            return
+        top = self.loop_stack[-1]
+        if f is not None:
+            k = f[0]
+            if k in ("and", "or"):
+                self.peel_probe(f[1])
+                self.peel_probe(f[2])
+            elif k == "not":
+                self.peel_probe(f[1])
+            elif k == "atom" and f[1][1] in ("eq", "ne"):
+                e = f[1][0]
+                if len(e.t) == 1:
+                    (sym, co), = e.t.items()
+                    if co in (1, -1):
+                        self.peel_probe(lin=Lin.sym(sym), val=-e.c * co)
+            return
+        if lin is not None and len(lin.t) == 1 and lin.c == 0:
+            (sym, co), = lin.t.items()
+            e0 = top["hsyms"].get(sym)
+            if co == 1 and e0 is not None and e0.is_const() and e0.c == val:
+                self.peel_wanted.add(top["lid"])
+
+    def peel(self, frame, st0, head, loopset):
+        """first iteration from the entry state itself, then the loop from every state that comes back to the head"""
+        self.stats["loops_peeled"] = self.stats.get("loops_peeled", 0) + 1
+        succs = self.exec_block(frame, st0.fork(), head)
+        items = [(s, x) for k, s, x in succs if k == "goto"]
+        rets = [(s, x) for k, s, x in succs if k == "ret"]
+        res = self.explore(frame, items, head, loopset)
+        out = {"ret": rets + res["ret"], "exit": list(res["exit"])}
+        lid = (frame.key, head)
+        for s_, _ in res["exit"]:
+            s_.ghost["loops_done"] = s_.ghost.get("loops_done", ()) + (lid,)
+        for b in res["back"]:
+            r = self.analyse_loop(frame, b, head, loopset, peeled=True)
+            out["ret"].extend(r["ret"])
+            out["exit"].extend(r["exit"])
+        return out
+
+    def analyse_loop(self, frame, st0, head, loopset, peeled=False, no_unroll=False):
         """Houdini-style inductive invariant inference over loop-carried leaves, then a
         final recorded pass.  Returns {'ret': [...], 'exit': [(st, bb)]}"""
         self.stats["loops"] += 1
         lid = (frame.key, head)
+        if lid in self.peel_wanted and not peeled and not self.opts.get("no_peel"):
+            return self.peel(frame, st0, head, loopset)
+        self._loop_gen[lid] = st0.ghost.get("loops_done", ()).count(lid)
+        ri = self.rot_info(frame.fn, frame.body)
+        rot = st0.ghost.get("rot")
+        if ri and head in ri["heads"] and rot is not None and rot[0] == frame.fid and not peeled and not no_unroll \
+                and (rot[1] in ri["heads"][head]["out"] or rot[1] in ri["heads"][head]["in"]) and not self.opts.get("no_rotate"):
+            # every outcome of the call before the loop reaches the head with the same pre-call state: the first one to
+            # arrive analyses the loop for all of them
+            done_key = (lid, id(rot[2]), self.mute > 0)
+            if done_key in self._rot_done:
+                return {"ret": [], "exit": []}
+            r = self.analyse_rotated(frame, st0, head, loopset, rot, ri["heads"][head], ri["chain"])
+            if r is not None:
+                self._rot_done[done_key] = rot[2]
+                return r
         small = self.small_array_loop(frame, st0, head)
         if self.opts.get("unroll") or small:
             r = self.try_unroll(frame, st0, head, loopset, max_width=(64 if small else 3))
             if r is not None:
                 return r
+        for c_, v_ in st0.cells.items():
+            if isinstance(v_, VVec):
+                self._loop_entry_cells[(lid, c_)] = v_
         havoc = {}          # (cell, keypath) -> (sym or None, kind)
         prefixes = {}       # (cell, keypath of content) -> common prefix of the segment description
         cands = None
         entry_vals = {}
+        want_unroll = False
         self.mute += 1
         try:
             for it in range(12):
                 H, hv = self.make_head(st0, havoc, cands, lid, entry_vals, prefixes)
                 if cands is None:
                     cands = []
-                succs = self.exec_block(frame, H.fork(), head)
-                items = [(s, x) for k, s, x in succs if k == "goto"]
-                res = self.explore(frame, items, head, loopset)
+                self.loop_stack.append({"lid": lid, "hsyms": {s_: entry_vals.get(leaf_) for leaf_, s_ in hv.items()
+                                                              if entry_vals.get(leaf_) is not None}})
+                try:
+                    succs = self.exec_block(frame, H.fork(), head)
+                    items = [(s, x) for k, s, x in succs if k == "goto"]
+                    res = self.explore(frame, items, head, loopset)
+                finally:
+                    self.loop_stack.pop()
                 backs = res["back"]
                 changed = False
                 for b in backs:
@@ -539,14 +701,25 @@ class ExecMixin:
                                     continue
                                 havoc[(cell, kp)] = kind
                                 changed = True
+                                if kind == "any" and not no_unroll and not self.opts.get("no_auto_unroll"):
+                                    old_ = self.vget(st0.cells[cell], kp) if kp else st0.cells[cell]
+                                    if isinstance(old_, VBool):
+                                        want_unroll = True      # a loop-carried flag: no relational invariant over it
+                if want_unroll:
+                    break
                 if changed:
                     # regenerate candidates for the enlarged havoc set
-                    cands = self.gen_candidates(st0, havoc, lid, frame)
+                    cands = self.gen_candidates(st0, havoc, lid, frame, H, backs)
                     continue
                 # check candidates on all back edges
                 bad = []
                 for c in cands:
                     for b in backs:
+                        if c[0] == "stride":
+                            if not self.stride_holds(b, c, lid):
+                                bad.append(c)
+                                break
+                            continue
                         inst = self.inst_cand(b, c, havoc, lid)
                         if inst is None or not entails(b.cons, inst, self.ranges):
                             bad.append(c)
@@ -559,6 +732,15 @@ class ExecMixin:
                 raise Abort("loop invariant inference did not converge at %s bb%d" % lid)
         finally:
             self.mute -= 1
+        if want_unroll:
+            # a loop driven by a flag and counters that start from constants: walk it iteration by iteration when that
+            # ends within the bounds (few states per round, at most 24 rounds); otherwise summarise it as usual
+            r = self.try_unroll(frame, st0, head, loopset, max_iter=24, max_width=3)
+            if r is not None:
+                return r
+            return self.analyse_loop(frame, st0, head, loopset, peeled, no_unroll=True)
+        if lid in self.peel_wanted and not peeled and not self.opts.get("no_peel"):
+            return self.peel(frame, st0, head, loopset)
         # final pass (obligations recorded)
         H, hv = self.make_head(st0, havoc, cands, lid, entry_vals, prefixes)
         succs = self.exec_block(frame, H.fork(), head)
@@ -576,10 +758,335 @@ class ExecMixin:
             })
         for s_, _ in res["exit"]:
             s_.ghost["loops_done"] = s_.ghost.get("loops_done", ()) + (lid,)
+        if not rets and not res["ret"]:
+            self.memcpy_summary(frame, head, H, res, havoc, lid)
         hook = self.hooks.get("loop")
         if hook:
             hook(frame, head, H, res, havoc, lid)
         return {"ret": rets + res["ret"], "exit": res["exit"]}
+
+    def terminal_exit(self, frame, b, head, loopset):
+        """a state that has come back to the head and, evaluated there once more, certainly leaves the loop (the flag it
+        set, the fault it parked in the loop variable) is an exit, not a back edge.  Returns {"ret", "exit"} or None."""
+        def run(st):
+            succs = self.exec_block(frame, st, head)
+            items = [(s, x) for k, s, x in succs if k == "goto"]
+            rets = [(s, x) for k, s, x in succs if k == "ret"]
+            res = self.explore(frame, items, head, loopset)
+            return rets, res
+        self.mute += 1
+        self._trial, saved = 60, self._trial
+        try:
+            rets, res = run(b.fork())
+        except TrialOver:
+            return None
+        finally:
+            self._trial = saved
+            self.mute -= 1
+        if res["back"]:
+            return None
+        if self.mute:
+            return {"ret": rets + res["ret"], "exit": res["exit"]}
+        rets, res = run(b.fork())
+        return {"ret": rets + res["ret"], "exit": res["exit"]}
+
+    def analyse_rotated(self, frame, st0, head, loopset, rot, hinfo, chain):
+        """the loop cut in front of the call that feeds its condition instead of at its head: the invariant is inferred
+        over the states in front of that call (the one before the loop on entry, the one at the end of the body on
+        every back edge), so the call's result is computed from the generalised state in each iteration, the way it is
+        in the unrotated form of the loop.  Returns None when the shape does not hold up (normal analysis follows)."""
+        lid = (frame.key, head)
+        P0 = rot[2]
+        site0 = rot[1]
+        region = set(loopset) | set(chain) | set(hinfo["in"]) | set(hinfo["out"])
+
+        def iteration(Hv, site):
+            """from the virtual head: the call, the moves up to the real head, one pass through the loop"""
+            s0 = Hv.fork()
+            s0.ghost.pop("rot", None)
+            succs = self.exec_block(frame, s0, site)
+            rets = [(s, x) for k, s, x in succs if k == "ret"]
+            arr = self.explore(frame, [(s, x) for k, s, x in succs if k == "goto"], head, region)
+            rets += arr["ret"]
+            exits = list(arr["exit"])
+            backs = []
+            for a_ in arr["back"]:
+                succs = self.exec_block(frame, a_, head)
+                rets += [(s, x) for k, s, x in succs if k == "ret"]
+                res = self.explore(frame, [(s, x) for k, s, x in succs if k == "goto"], head, loopset)
+                rets += res["ret"]
+                exits += res["exit"]
+                backs += res["back"]
+            return rets, exits, backs
+
+        def pre_states(backs):
+            """(pre-call states of the continuing back edges, exits and returns of the terminal ones, in-loop site) or None"""
+            pres, exits, rets, site = [], [], [], None
+            for b in backs:
+                t = b.ghost.get("rot")
+                if t is not None and t[0] == frame.fid and t[1] in hinfo["in"]:
+                    # came round through the call: whatever the call returned this time is the next iteration's business
+                    if site is not None and t[1] != site:
+                        return None
+                    site = t[1]
+                    pres.append(t[2])
+                    continue
+                te = self.terminal_exit(frame, b, head, loopset)
+                if te is None:
+                    return None
+                exits += te["exit"]
+                rets += te["ret"]
+            return pres, exits, rets, site
+
+        havoc, prefixes, entry_vals = {}, {}, {}
+        cands = None
+        site = site0
+        self.mute += 1
+        try:
+            # the call before the loop and the call in the loop must be interchangeable on the entry state
+            for it in range(14):
+                H, hv = self.make_head(P0, havoc, cands, lid, entry_vals, prefixes)
+                if cands is None:
+                    cands = []
+                self.loop_stack.append({"lid": lid, "hsyms": {s_: entry_vals.get(leaf_) for leaf_, s_ in hv.items()
+                                                              if entry_vals.get(leaf_) is not None}})
+                try:
+                    _r, _e, backs = iteration(H, site)
+                finally:
+                    self.loop_stack.pop()
+                ps = pre_states(backs)
+                if ps is None:
+                    return None
+                pres, _te, _tr, insite = ps
+                if site == site0 and insite is not None and insite != site0:
+                    # from now on the in-loop call stands at the virtual head; it must do on the entry state what the
+                    # call before the loop did
+                    if not self.same_call_effect(frame, P0, site0, insite, head, region):
+                        return None
+                    site = insite
+                    continue
+                changed = self.houdini_update(P0, H, pres, havoc, prefixes)
+                if changed:
+                    cands = self.gen_candidates(P0, havoc, lid, frame, H, pres)
+                    continue
+                bad = []
+                for c in cands:
+                    for b in pres:
+                        if c[0] == "stride":
+                            if not self.stride_holds(b, c, lid):
+                                bad.append(c)
+                                break
+                            continue
+                        inst = self.inst_cand(b, c, havoc, lid)
+                        if inst is None or not entails(b.cons, inst, self.ranges):
+                            bad.append(c)
+                            break
+                if bad:
+                    cands = [c for c in cands if c not in bad]
+                    continue
+                break
+            else:
+                return None
+        finally:
+            self.mute -= 1
+        H, hv = self.make_head(P0, havoc, cands, lid, entry_vals, prefixes)
+        rets, exits, backs = iteration(H, site)
+        ps = pre_states(backs)
+        if ps is None:
+            return None
+        pres, texits, trets, _site = ps
+        exits += texits
+        rets += trets
+        res = {"ret": rets, "exit": exits, "back": pres}
+        self.rank_check(frame, head, H, pres, havoc, lid, cands)
+        self.stats["loops_rotated"] = self.stats.get("loops_rotated", 0) + 1
+        if not self.mute:
+            self.loops_report.append({
+                "fn": frame.fn["name"], "head": head, "context": frame.ctxname, "rotated": True,
+                "havoc": [self.leaf_name(c, kp) for (c, kp) in havoc],
+                "invariants": [self.cand_str(c) for c in cands],
+                "back_edges": len(pres), "exits": len(exits),
+            })
+        for s_, _ in exits:
+            s_.ghost["loops_done"] = s_.ghost.get("loops_done", ()) + (lid,)
+        hook = self.hooks.get("loop")
+        if hook:
+            hook(frame, head, H, res, havoc, lid)
+        return {"ret": rets, "exit": exits}
+
+    def same_call_effect(self, frame, P0, site_a, site_b, head, region):
+        """both call blocks, run from the same state up to the loop head, leave the same values in every local except
+        their own temporaries (the locals the two blocks and the move chains assign and then move out of)"""
+        def run(site):
+            s0 = P0.fork()
+            succs = self.exec_block(frame, s0, site)
+            arr = self.explore(frame, [(s, x) for k, s, x in succs if k == "goto"], head, region)
+            return arr["back"], len(arr["exit"]) + len(arr["ret"]) + len([1 for k, s, x in succs if k == "ret"])
+        a, na = run(site_a)
+        b, nb = run(site_b)
+        if len(a) != len(b) or na != nb:
+            return False
+        blocks = frame.body["blocks"]
+        temps = set()
+        for site in (site_a, site_b):
+            bb = site
+            seen = set()
+            while bb is not None and bb != head and bb not in seen:
+                seen.add(bb)
+                blk = blocks[bb]
+                for st_ in blk["stmts"]:
+                    if st_["s"] == "assign":
+                        if bb == site and not st_["place"]["p"]:
+                            temps.add(st_["place"]["l"])
+                        op = st_["rv"].get("op") if st_["rv"]["k"] == "use" else None
+                        if isinstance(op, dict) and "move" in op and not op["move"]["p"]:
+                            temps.add(op["move"]["l"])
+                t = blk["term"]
+                if bb == site and t["t"] == "call":
+                    if not t["dest"]["p"]:
+                        temps.add(t["dest"]["l"])
+                    for ag in t["args"]:
+                        if isinstance(ag, dict) and "move" in ag and not ag["move"]["p"]:
+                            temps.add(ag["move"]["l"])
+                bb = t.get("target") if t["t"] in ("call", "goto", "drop") else None
+        skip = set(frame.cells[l_] for l_ in temps if l_ < len(frame.cells))
+        import re as _re
+
+        def norm(v):
+            return _re.sub(r"\$\d+", "$", repr(v))
+        for x, y in zip(a, b):
+            for cell in set(x.cells) | set(y.cells):
+                if cell in skip:
+                    continue
+                if x.cells.get(cell) is None or y.cells.get(cell) is None:
+                    continue        # not initialised on one of the ways in: dead at the head (definite initialisation)
+                if norm(x.cells.get(cell)) != norm(y.cells.get(cell)):
+                    if self.opts.get("debug_rot"):
+                        print("same_call_effect: cell", cell, norm(x.cells.get(cell))[:200], "|", norm(y.cells.get(cell))[:200], "skip", skip)
+                    return False
+        return True
+
+    def houdini_update(self, st0, H, backs, havoc, prefixes):
+        """enlarge the havoc set by the leaves in which a back-edge state differs from the head state"""
+        changed = False
+        for b in backs:
+            for cell, v0 in H.cells.items():
+                if cell not in st0.cells:
+                    continue
+                vb = b.cells.get(cell)
+                if vb is None or vb is v0:
+                    continue
+                for kp, kind in self.diff(b, v0, vb, ()):
+                    if kind == "content":
+                        a0 = self.vget(st0.cells[cell], kp[:-1]) if kp[:-1] else st0.cells[cell]
+                        b0 = self.vget(vb, kp[:-1]) if kp[:-1] else vb
+                        cur = prefixes.get((cell, kp))
+                        base = cur if cur is not None else (a0.segs if isinstance(a0, VVec) and a0.segs is not None else ())
+                        other = b0.segs if isinstance(b0, VVec) and b0.segs is not None else ()
+                        pre = []
+                        for x, y in zip(base, other):
+                            if x[0] == y[0] and x[1] == y[1]:
+                                pre.append(x)
+                            else:
+                                break
+                        pre = tuple(pre)
+                        if cur is None or len(pre) < len(cur):
+                            prefixes[(cell, kp)] = pre
+                            changed = True
+                    if (cell, kp) not in havoc:
+                        if any((cell, kp[:i]) in havoc for i in range(len(kp))):
+                            continue
+                        havoc[(cell, kp)] = kind
+                        changed = True
+        return changed
+
+    def memcpy_summary(self, frame, head, H, res, havoc, lid):
+        """an element-wise copy loop  `dst[a + p] = src[b + p]; p += 1`  (nothing else happens in an iteration) leaves
+        dst[a + p0 .. a + p_exit) = src[b + p0 .. b + p_exit): recorded on the exit states as one copy, like
+        copy_from_slice / ptr::copy_nonoverlapping would be"""
+        backs = res["back"]
+        if not backs or not res["exit"]:
+            return
+        leaves = {self.hsym(lid, c_, kp_): (c_, kp_) for (c_, kp_), k_ in havoc.items() if k_ == "int"}
+
+        def at_entry(lin):
+            out = Lin.const(lin.c)
+            for sym, k in lin.t.items():
+                if sym in leaves:
+                    e0 = self._entry.get((lid, leaves[sym]))
+                    if e0 is None:
+                        return None
+                    out = out + e0.scale(k)
+                else:
+                    out = out + Lin.sym(sym).scale(k)
+            return out
+        info = None
+        for b in backs:
+            evs = b.events()[H.ntrace:]
+            stores = [e for e in evs if e[0] == "elemstore"]
+            other = [e for e in evs if e[0] not in ("elemstore", "range_next", "iter_next")]
+            if len(stores) != 1 or other:
+                return
+            _, D, I, val = stores[0]
+            if not (len(val.lin.t) == 1 and val.lin.c == 0 and next(iter(val.lin.t.values())) == 1):
+                return
+            src = getattr(self, "byte_syms", {}).get(next(iter(val.lin.t)))
+            if src is None or src[0] == D:
+                return
+            sbase, J = src
+            hs = [s_ for s_ in I.t if s_ in leaves]
+            if len(hs) != 1 or I.t[hs[0]] != 1:
+                return
+            pl = leaves[hs[0]]
+            nb = self.leaf_lin(b, *pl)
+            I0, J0 = at_entry(I), at_entry(J)
+            if nb is None or I0 is None or J0 is None or not entails(b.cons, c_eq(nb, Lin.sym(hs[0]) + 1), self.ranges):
+                return
+            if not entails(b.cons, c_eq(J - I, J0 - I0), self.ranges):
+                return
+            cur = (D, sbase, hs[0], I, I0, J0)
+            if info is None:
+                info = cur
+            elif info != cur:
+                return
+        D, sbase, hsym_p, I, I0, J0 = info
+        pl = leaves[hsym_p]
+        e0 = self._entry.get((lid, pl))
+        from stubs import slice_desc, patch_segs
+        for s_, _bb in res["exit"]:
+            pe = self.leaf_lin(s_, *pl)
+            tgt = s_.cells.get(D)
+            if pe is None or not isinstance(tgt, VVec):
+                continue
+            n = pe - e0
+            # the same count, written the way the program's own lengths are written (when that is provable)
+            for (c_, kp_, v_) in self._len_leaves(s_, havoc, frame):
+                if entails(s_.cons, c_eq(n, v_), self.ranges):
+                    n = v_
+                    break
+            d = slice_desc(self, s_, VSlice(sbase, J0, n, self.u8_ty()))
+            s_.emit(("copy", D, I0, VInt(self.usize_ty(), n), d, {"fn": frame.fn["name"], "bb": head, "ln": frame.body["blocks"][head]["term"].get("ln"), "ctx": frame.ctxname}))
+            st0v = H.cells.get(D)
+            segs0 = None
+            # content before the loop (the head state's prefix description) with the copied range replaced
+            ent_v = self._loop_entry_cells.get((lid, D))
+            if isinstance(ent_v, VVec) and ent_v.segs is not None:
+                segs0 = patch_segs(self, s_, ent_v.segs, I0, n, d)
+            s_.cells[D] = VVec(tgt.len, segs0, None, tgt.name, tgt.elem_ty, tgt.marks)
+        self.stats["loops_memcpy"] = self.stats.get("loops_memcpy", 0) + 1
+
+    def _len_leaves(self, st, havoc, frame):
+        out = []
+        for cell in set(c_ for (c_, _kp) in havoc):
+            v = st.cells.get(cell)
+            if v is None:
+                continue
+            tmp = []
+            self.int_leaves(st, cell, v, (), tmp)
+            for (c_, kp_, x) in tmp:
+                if kp_ and kp_[-1][0] in ("slen", "len", "ilen") and isinstance(x, VInt):
+                    out.append((c_, kp_, x.lin))
+        return out
 
     def small_array_loop(self, frame, st0, head):
         """is this a `for x in <fixed-size array / few literal items>` loop?  Its head calls Iterator::next on an
@@ -609,6 +1116,9 @@ class ExecMixin:
                     v = a if (isinstance(a, VIter) and a.kind == "array") else b
                 else:
                     break
+            if isinstance(v, VIter) and v.kind == "slice" and isinstance(v.pos, Lin) and v.pos.is_const() \
+                    and isinstance(v.src, VSlice) and v.src.len.is_const() and 0 <= v.src.len.c - v.pos.c <= 8:
+                return True        # a slice iterator over a fixed-size array (`for x in arr.iter_mut()`)
             return isinstance(v, VIter) and v.kind == "array" and isinstance(v.pos, int) and v.items is not None \
                 and len(v.items) - v.pos <= 8
         except Abort:
@@ -659,7 +1169,10 @@ class ExecMixin:
         return "%s%s" % (cell, "".join("." + "/".join(str(x) for x in k) for k in kp))
 
     def hsym(self, lid, cell, kp):
-        return "h[%s.bb%d|%s]" % (lid[0].split("::", 1)[-1], lid[1], self.leaf_name(cell, kp))
+        # a path that goes through the same loop again (after an unrolled or peeled outer iteration) gets fresh
+        # head symbols: the constraints its first passage left on the old ones do not apply to the new passage
+        g = self._loop_gen.get(lid, 0)
+        return "h[%s.bb%d%s|%s]" % (lid[0].split("::", 1)[-1], lid[1], "#%d" % g if g else "", self.leaf_name(cell, kp))
 
     def vget(self, v, kp):
         for key in kp:
@@ -872,9 +1385,41 @@ class ExecMixin:
             else:
                 self.int_leaves(st, cell, c, kp + (key,), out, depth + 1)
 
-    def gen_candidates(self, st0, havoc, lid, frame):
+    def stride_sym(self, lid, leaf, c):
+        return "k[%s/%d]" % (self.hsym(lid, *leaf), c)
+
+    def stride_holds(self, b, cand, lid):
+        """leaf = entry + c*K for an integer K at the head  =>  the same at the back edge: (leaf' - entry) is a
+        multiple of c once the head symbols with a stride are written as entry + c*K"""
+        _k, leaf, c = cand
+        xb = self.leaf_lin(b, *leaf)
+        e0 = self._entry.get((lid, leaf))
+        if xb is None or e0 is None:
+            return False
+        d = xb - e0
+        hs = self.hsym(lid, *leaf)
+        if hs in d.t:
+            k = d.t[hs]
+            d = d - Lin.sym(hs).scale(k) + (e0 + Lin.sym(self.stride_sym(lid, leaf, c)).scale(c)).scale(k)
+        return d.c % c == 0 and all(k % c == 0 for k in d.t.values())
+
+    def gen_candidates(self, st0, havoc, lid, frame, H=None, backs=()):
         cands = []
         hint = [(c, kp) for (c, kp), kind in havoc.items() if kind == "int"]
+        # strides: a loop-carried integer that moves by a constant c (|c| >= 2) stays congruent to its entry value
+        seen = set()
+        for leaf in hint:
+            h = self.leaf_lin(H, *leaf) if H is not None else None
+            if h is None:
+                continue
+            for b in backs:
+                xb = self.leaf_lin(b, *leaf)
+                if xb is None:
+                    continue
+                d = xb - h
+                if d.is_const() and abs(d.c) >= 2 and (leaf, abs(d.c)) not in seen:
+                    seen.add((leaf, abs(d.c)))
+                    cands.append(("stride", leaf, abs(d.c)))
         # neighbourhood: int leaves in the same cells as havoced leaves and in the frame's locals
         neigh = []
         cells = set(c for c, _ in hint)
@@ -937,6 +1482,11 @@ class ExecMixin:
             return None
         if kind == "gec":
             return c_le(Lin.const(c[2]), a)
+        if kind == "stride":
+            e0 = self._entry.get((lid, c[1]))
+            if e0 is None:
+                return None
+            return c_eq(a, e0 + Lin.sym(self.stride_sym(lid, c[1], c[2])).scale(c[2]))
         if kind in ("ge0", "le0"):
             e0 = self._entry.get((lid, c[1]))
             if e0 is None:
@@ -966,6 +1516,8 @@ class ExecMixin:
             return "%s %+d*%s conserved" % (self.leaf_name(*c[1]), c[3], self.leaf_name(*c[2]))
         if c[0] == "gec":
             return "%s >= %d" % (self.leaf_name(*c[1]), c[2])
+        if c[0] == "stride":
+            return "%s = entry (mod %d)" % (self.leaf_name(*c[1]), c[2])
         if c[0] in ("ge0", "le0"):
             return "%s %s entry" % (self.leaf_name(*c[1]), ">=" if c[0] == "ge0" else "<=")
         return "%s %s %s" % (self.leaf_name(*c[1]), "<=" if c[0] == "le" else ">=", self.leaf_name(*c[2]))
@@ -986,6 +1538,28 @@ class ExecMixin:
                     for b in backs):
                 found = "%s decreases, bounded below by %s" % (self.leaf_name(cell, kp), lo)
                 break
+            # progressing towards a loop-invariant bound that the guard enforces on every iteration that continues:
+            # a constraint  k*x + rest <= 0  (k != 0, rest free of loop-carried symbols) on every back edge, and x moves
+            # by at least 1 in the direction of the bound
+            hs = self.hsym(lid, cell, kp)
+            hsyms = set(self.hsym(lid, c_, kp_) for (c_, kp_) in havoc)
+            if backs and h == Lin.sym(hs):
+                for (e, k_) in backs[0].cons:
+                    if k_ != "le" or hs not in e.t or any(s_ in hsyms and s_ != hs for s_ in e.t):
+                        continue
+                    up = e.t[hs] > 0
+                    ok = True
+                    for b in backs:
+                        xb = self.leaf_lin(b, cell, kp)
+                        if xb is None or not entails(b.cons, (e, "le"), self.ranges) or \
+                                not entails(b.cons, c_le(h + 1, xb) if up else c_le(xb, h - 1), self.ranges):
+                            ok = False
+                            break
+                    if ok:
+                        found = "%s %s towards the loop guard's bound" % (self.leaf_name(cell, kp), "increases" if up else "decreases")
+                        break
+                if found:
+                    break
             # increasing towards another leaf that is an invariant upper bound
             for c in cands:
                 if c[0] == "le" and c[1] == (cell, kp):
@@ -1033,6 +1607,10 @@ class ExecMixin:
                     break
         self.oblig("rank", frame, head, "loop", bool(found), H if not found else None,
                    found or "no ranking function found among loop-carried integers", None)
+
+
+class TrialOver(Exception):
+    """a trial run exceeded its block budget"""
 
 
 class Frame_:
